@@ -242,7 +242,8 @@ Inductive c07_class : Type :=
 | K_unmodelled               (* outside the modelled fragment *)
 | K_str_default_altered      (* a str default loses its own quote characters / 'None' reads as None *)
 | K_type_dropped             (* type deleted because the default is back-tick quoted code and the type has no '[' *)
-| K_class_attr_order.        (* class level: attributes shared with __init__ come first, in class order *)
+| K_class_attr_order         (* class level: attributes shared with __init__ come first, in class order *)
+| K_class_merge_raises.      (* class level: ir_merge hashes an unhashable __init__ default (dict / list): TypeError *)
 
 Definition c07_class_name (k : c07_class) : str :=
   match k with
@@ -255,6 +256,7 @@ Definition c07_class_name (k : c07_class) : str :=
   | K_str_default_altered => L "str-default-unquoted-or-read-as-none"
   | K_type_dropped => L "type-dropped-for-code-default"
   | K_class_attr_order => L "class-attributes-reorder-init-parameters"
+  | K_class_merge_raises => L "class-merge-raises-on-unhashable-default"
   end.
 
 (* effective declared type of a parameter: documented type, else annotation *)
@@ -350,10 +352,20 @@ Definition init_names_in_merged (tnames inames : list str) : list str :=
 Definition class_order_guard (tnames inames : list str) : bool :=
   is_prefix (filter (fun k => mem_str k inames) tnames) inames.
 
-Definition finding_class_C07_class (tnames : list str) (d : option ir) (fd : stmt) : option c07_class :=
+Definition finding_class_C07_class (t : ir) (d : option ir) (fd : stmt) : option c07_class :=
   match finding_class_C07 d fd with
   | Some k => Some k
-  | None => if class_order_guard tnames (expected_names d fd) then None else Some K_class_attr_order
+  | None =>
+    match parse_default id_perm id_perm d fd with
+    | Ok inner =>
+      match ir_merge id_perm id_perm t inner with
+      | Err Unmodelled => Some K_unmodelled
+      | Err _ => Some K_class_merge_raises
+      | Ok _ => if class_order_guard (od_keys (ir_params t)) (expected_names d fd) then None
+                else Some K_class_attr_order
+      end
+    | Err _ => Some K_unmodelled
+    end
   end.
 
 (* ---------------- wire ---------------- *)
@@ -362,7 +374,7 @@ Definition run_c07 (fn : sexp) (args : list sexp) : option sexp :=
   if is_sym "c07_class_merge" fn then
     match args with
     | [tn; d; s] =>
-      match dec_list dec_str tn, dec_option dec_ir d, dec_stmt s with
+      match dec_ir tn, dec_option dec_ir d, dec_stmt s with
       | Some tn, Some d, Some fd =>
         Some (enc_option (fun k => enc_str (c07_class_name k)) (finding_class_C07_class tn d fd))
       | _, _, _ => None
